@@ -65,6 +65,125 @@ fn load_known(id: &str) -> Vec<KnownEntry> {
     f.findings.into_iter().filter(|e| e.property == id).collect()
 }
 
+pub struct FuzzReport {
+    pub execs: u64,
+    pub requested: u64,
+    pub corpus_seed_files: usize,
+    pub corpus_final_files: usize,
+    pub crash_artifacts: Vec<PathBuf>,
+    pub other_artifacts: usize,
+    pub note: String,
+}
+
+/// Coverage-guided driver: runs the pre-built libFuzzer target of the property (path in RV_FUZZ_BIN)
+/// with a fixed number of runs per worker, a fresh corpus seeded from the regression corpus and a few
+/// random choice sequences. A wall-clock cap only means 'explored less'.
+pub fn run_fuzz(prop: &dyn Property, seed: u64, threads: usize, scale: f64) -> Option<FuzzReport> {
+    let bin = std::env::var("RV_FUZZ_BIN").ok()?;
+    if !Path::new(&bin).exists() {
+        return None;
+    }
+    let id = prop.id();
+    let cfg = prop.pbt(Tier::Thorough);
+    let work = out_dir().join("fuzz-run").join(format!("{}-{}", id, seed));
+    let _ = std::fs::remove_dir_all(&work);
+    let corpus = work.join("corpus");
+    let artifacts = work.join("artifacts");
+    let _ = std::fs::create_dir_all(&corpus);
+    let _ = std::fs::create_dir_all(&artifacts);
+    let mut seeds = 0usize;
+    // regression cases and witnesses
+    for sub in ["regress", ""] {
+        let dir = verif_dir().join("corpus").join(id).join(sub);
+        if let Ok(rd) = std::fs::read_dir(&dir) {
+            for e in rd.filter_map(|e| e.ok()) {
+                if let Ok(s) = std::fs::read_to_string(e.path()) {
+                    if let Ok(rf) = serde_json::from_str::<ReplayFile>(&s) {
+                        if let CaseId::Choices { hex } = rf.case {
+                            let _ = std::fs::write(corpus.join(format!("seed-{seeds:04}")), from_hex(&hex));
+                            seeds += 1;
+                        }
+                    }
+                }
+            }
+        }
+    }
+    // random choice sequences of several lengths (libFuzzer ramps length slowly from an empty corpus)
+    for k in 0..48u64 {
+        let len = match k % 4 {
+            0 => cfg.max_len / 16,
+            1 => cfg.max_len / 4,
+            2 => cfg.max_len / 2,
+            _ => cfg.max_len,
+        }
+        .max(8);
+        let mut b = vec![0u8; len];
+        fill_stream(splitmix(seed ^ (k << 32) ^ fnv(id.as_bytes())), &mut b);
+        let _ = std::fs::write(corpus.join(format!("rand-{k:04}")), b);
+        seeds += 1;
+    }
+    let workers = threads.max(1);
+    let total: u64 = ((cfg.cases as f64) * scale * 2.0) as u64;
+    let per = (total / workers as u64).max(1000);
+    let cap_s: u64 = std::env::var("VERIF_FUZZ_MAX_S").ok().and_then(|v| v.parse().ok()).unwrap_or(900);
+    let status = std::process::Command::new(&bin)
+        .current_dir(&work)
+        .env("VERIF_OUT", out_dir())
+        .arg(&corpus)
+        .arg(format!("-runs={per}"))
+        .arg(format!("-seed={}", (seed % 4_000_000_000).max(1)))
+        .arg(format!("-max_len={}", cfg.max_len))
+        .arg("-len_control=0")
+        .arg("-print_final_stats=1")
+        .arg(format!("-max_total_time={cap_s}"))
+        .arg("-rss_limit_mb=4096")
+        .arg("-timeout=60")
+        .arg(format!("-artifact_prefix={}/", artifacts.display()))
+        .arg(format!("-jobs={workers}"))
+        .arg(format!("-workers={workers}"))
+        .stdout(std::process::Stdio::null())
+        .stderr(std::process::Stdio::null())
+        .status();
+    let mut execs = 0u64;
+    if let Ok(rd) = std::fs::read_dir(&work) {
+        for e in rd.filter_map(|e| e.ok()) {
+            let name = e.file_name().to_string_lossy().to_string();
+            if name.starts_with("fuzz-") && name.ends_with(".log") {
+                if let Ok(s) = std::fs::read_to_string(e.path()) {
+                    for l in s.lines() {
+                        if let Some(v) = l.strip_prefix("stat::number_of_executed_units:") {
+                            execs += v.trim().parse::<u64>().unwrap_or(0);
+                        }
+                    }
+                }
+            }
+        }
+    }
+    let mut crash = vec![];
+    let mut other = 0usize;
+    if let Ok(rd) = std::fs::read_dir(&artifacts) {
+        for e in rd.filter_map(|e| e.ok()) {
+            let name = e.file_name().to_string_lossy().to_string();
+            if name.starts_with("crash-") {
+                crash.push(e.path());
+            } else {
+                other += 1;
+            }
+        }
+    }
+    crash.sort();
+    let final_files = std::fs::read_dir(&corpus).map(|r| r.count()).unwrap_or(0);
+    Some(FuzzReport {
+        execs,
+        requested: per * workers as u64,
+        corpus_seed_files: seeds,
+        corpus_final_files: final_files,
+        crash_artifacts: crash,
+        other_artifacts: other,
+        note: format!("libFuzzer exit status {:?}", status.map(|s| s.code())),
+    })
+}
+
 pub fn known_open_signatures(id: &str) -> Vec<String> {
     load_known(id).into_iter().filter(|e| e.status == "open").map(|e| e.signature).collect()
 }
@@ -542,6 +661,44 @@ pub fn run(prop: &dyn Property, opt: &RunOptions) -> i32 {
         }
     }
 
+    // 5. coverage-guided driver (thorough tier, when the target was pre-built by ./check)
+    let mut fuzz_json = serde_json::json!(null);
+    if tier == Tier::Thorough && violations.is_empty() && inconclusive.is_none() && std::env::var("VERIF_NO_FUZZ").is_err() {
+        if let Some(rep) = run_fuzz(prop, opt.seed, opt.threads, opt.scale) {
+            *drivers.entry("libfuzzer".into()).or_insert(0) += rep.execs;
+            shared.evaluations.fetch_add(rep.execs, Ordering::Relaxed);
+            let mut reproduced = 0;
+            for a in rep.crash_artifacts.iter() {
+                if let Ok(bytes) = std::fs::read(a) {
+                    let case = CaseId::choices(&bytes);
+                    let (r, _) = run_one(prop, &case, tier, &known_open, false, true);
+                    match r {
+                        CaseRun::Fail(f) => {
+                            reproduced += 1;
+                            if violations.is_empty() {
+                                violations.push(Violation { case, fail: f, driver: format!("libfuzzer artifact {}", a.display()) });
+                            }
+                        }
+                        CaseRun::HarnessBug(p) => inconclusive = Some(format!("harness bug on fuzz artifact: {} at {}:{}", p.message, p.file, p.line)),
+                        CaseRun::Ok => {}
+                    }
+                }
+            }
+            fuzz_json = serde_json::json!({
+                "runs_requested": rep.requested,
+                "executions": rep.execs,
+                "corpus_seed_files": rep.corpus_seed_files,
+                "corpus_final_files": rep.corpus_final_files,
+                "crash_artifacts": rep.crash_artifacts.len(),
+                "crash_artifacts_reproduced_in_strict_replay": reproduced,
+                "other_artifacts_(timeout/oom: inconclusive)": rep.other_artifacts,
+                "note": rep.note,
+            });
+        } else {
+            fuzz_json = serde_json::json!({"note": "libFuzzer target not built (RV_FUZZ_BIN unset): coverage-guided driver skipped"});
+        }
+    }
+
     // Samples: re-run a few recorded non-trivial cases with tracing on.
     let mut samples: Vec<serde_json::Value> = vec![];
     {
@@ -604,6 +761,7 @@ pub fn run(prop: &dyn Property, opt: &RunOptions) -> i32 {
             "known_finding_hits_excluded": known_hits,
             "pbt_cases_requested": total_cases,
             "pbt_max_choice_bytes": cfg.max_len,
+            "libfuzzer": fuzz_json,
         },
         "assumptions": assumptions,
         "wall_s": wall,
